@@ -211,6 +211,7 @@ func (p *Path) assume(c *Term) {
 	if c == TFalse {
 		p.abort("infeasible", "assume false")
 	}
+	p.ensureSync() // never assert into a freshly restarted solver below the path's own frame
 	p.pc = append(p.pc, c)
 	p.w.inc.Assert(c)
 	p.noteKnown(c, true)
@@ -593,19 +594,17 @@ func modelStrings(m map[string]*Term) map[string]string {
 func (p *Path) checkNeg(neg *Term, wantModel bool) (string, map[string]*Term, int64) {
 	t0 := time.Now()
 	p.ensureSync()
-	// cheap attempt on the incremental solver
+	// cheap attempt on the incremental solver. Only an "unsat" is taken from it: a counterexample is always re-derived from a
+	// clean solver state with the full path condition (an incremental "sat" from a solver that lost assertions would be a false alarm).
 	s := p.w.inc
 	s.Push()
 	s.Assert(neg)
 	r := s.Check(p.eng.cfg.FeasTimeoutMS)
-	var m map[string]*Term
-	if r == "sat" && wantModel {
-		m = s.Model(collectSyms(append(append([]*Term{}, p.pc...), neg)))
-	}
 	s.Pop()
-	if r == "unsat" || (r == "sat" && (len(m) > 0 || !wantModel)) {
-		return r, m, time.Since(t0).Milliseconds()
+	if r == "unsat" {
+		return r, nil, time.Since(t0).Milliseconds()
 	}
+	var m map[string]*Term
 	as := append(append([]*Term{}, p.pc...), neg)
 	to := p.eng.cfg.AssertTimeoutMS
 	if p.assertTO > 0 {
@@ -616,12 +615,20 @@ func (p *Path) checkNeg(neg *Term, wantModel bool) (string, map[string]*Term, in
 		p.eng.note("solver-error", r)
 		r = "unknown"
 	}
+	if r == "sat" && wantModel && !modelSatisfies(as, m) {
+		p.eng.note("solver-error", "model returned by the solver does not satisfy the query; verdict discarded")
+		r = "unknown"
+	}
 	if r == "unknown" {
 		// second opinion from z3 5.1 (the two versions have different strengths on nonlinear integer arithmetic)
 		if p.w.one2 == nil {
 			p.w.one2 = NewSolver("z3-new")
 		}
 		r2, m2 := p.w.one2.CheckOnce(as, to, wantModel)
+		if r2 == "sat" && wantModel && !modelSatisfies(as, m2) {
+			p.eng.note("solver-error", "model returned by the second solver does not satisfy the query; verdict discarded")
+			r2 = "unknown"
+		}
 		if r2 == "sat" || r2 == "unsat" {
 			atomic.AddInt64(&statFallback, 1)
 			return r2, m2, time.Since(t0).Milliseconds()
@@ -635,6 +642,29 @@ func (p *Path) checkNeg(neg *Term, wantModel bool) (string, map[string]*Term, in
 		}
 	}
 	return r, m, time.Since(t0).Milliseconds()
+}
+
+// modelSatisfies re-evaluates every assertion under the model the solver returned. An assertion that evaluates to false means the
+// answer cannot be trusted (lost assertion, crashed process); assertions that do not evaluate to a constant (uninterpreted
+// functions, incomplete model) are not counted against the model.
+func modelSatisfies(as []*Term, m map[string]*Term) bool {
+	syms := collectSyms(as)
+	if len(syms) == 0 {
+		return true
+	}
+	if len(m) == 0 {
+		return false
+	}
+	if len(m) < len(syms) {
+		return true
+	}
+	memo := map[int]*Term{}
+	for _, a := range as {
+		if evalTerm(a, m, memo) == TFalse {
+			return false
+		}
+	}
+	return true
 }
 
 func (p *Path) record(o Obligation) {
